@@ -86,5 +86,3 @@ Arguments c_retrieve {C}. Arguments c_insert {C}.
 Inductive dresult (M : Type) := DFail | DMsg (m : M) (nonfatal : Z).
 Arguments DFail {M}. Arguments DMsg {M}.
 
-Definition catch {A} (o : outcome A) : outcome (option A) :=
-  match o with Ok a => Ok (Some a) | Err _ => Ok None | Panic => Panic | Hang => Hang end.
